@@ -47,6 +47,7 @@ type gen struct {
 	w    int // W lines printed when everything runs to its end
 	jobs int // job variable counter
 	size int // remaining compound statements
+	fns  int // generated function counter
 	// inPlace: this case may use inPlaceOps
 	inPlace bool
 }
@@ -115,7 +116,7 @@ func (g *gen) scope(depth, mult int, quiet bool) string {
 	var pending []pend
 	nst := g.n(1, 5, "nstmt")
 	for i := 0; i < nst; i++ {
-		kind := g.n(0, 13, "stmt")
+		kind := g.n(0, 16, "stmt")
 		if g.size <= 0 || depth >= 3 {
 			kind = kind % 3
 		}
@@ -196,6 +197,22 @@ func (g *gen) scope(depth, mult int, quiet bool) string {
 				} else {
 					g.w += mult
 				}
+			}
+		case 14, 15:
+			// the same concurrency started from inside a function body (its
+			// variable scope sits between the job and the global one), with
+			// the function going on to assign globals while the jobs run
+			g.fns++
+			name := fmt.Sprintf("h%d", g.fns)
+			local := []string{"", "local lv=$v\n", "local v=L\n", "local -a a=(L)\n"}[g.n(0, 3, "fnlocal")]
+			s = name + "() {\n" + local + indent(g.scope(depth+1, mult, quiet)) + "\n}\n" + name
+		case 16:
+			// a foreground subshell or group around a scope
+			s = []string{"(\n", "{\n"}[g.n(0, 1, "fgkind")] + indent(g.scope(depth+1, mult, quiet))
+			if strings.HasPrefix(s, "(") {
+				s += "\n)"
+			} else {
+				s += "\n}"
 			}
 		default:
 			s = "f() { v=$((v+1)); a[1]=$v; }\n{ f; } &\nf"
